@@ -173,6 +173,11 @@ def pmtm(x, NW=None, k=None, NFFT=None, e=None, v=None, method="adapt", show=Fal
     """
     assert method in ["adapt", "eigen", "unity"]
 
+    # integer samples (e.g. 16-bit PCM data) must not be multiplied in their
+    # own (possibly narrow) dtype (data power of the adaptive method)
+    x = np.asarray(x)
+    if x.dtype.kind in "iub":
+        x = x.astype(float)
     N = len(x)
 
     # if dpss not provided, compute them
